@@ -2,4 +2,4 @@
 # thorough-one.sh <prop> [seed]: build vcheck in this checkout and run one thorough tier
 cd "$(dirname "$0")/.."
 (cd sim && GOTOOLCHAIN=local GOPROXY=off GOSUMDB=off GOFLAGS=-mod=vendor /opt/veriftools/go1.26.8/bin/go build -o ../bin/vcheck ./cmd/vcheck) || exit 2
-/usr/bin/time -v env VERIF_SEED=${2:-1} VERIF_EVIDENCE_DIR=$PWD/ev VERIF_REPLAY_DIR=$PWD/rp ./bin/vcheck $1 thorough 2>&1 | grep -E "thorough|violation|VIOLATION|HARNESS|Maximum resident|Elapsed" | cut -c1-300
+/usr/bin/time -v env VERIF_SEED=${2:-1} VERIF_EVIDENCE_DIR=$PWD/ev VERIF_REPLAY_DIR=$PWD/rp ./bin/vcheck $1 thorough 2>&1
